@@ -313,7 +313,8 @@ def fmt_op(op) -> str:
     if k == "chain":
         return f"{'rchain' if len(op) > 2 and op[2] else 'chain'}({fmt_prog(op[1])})"
     if k == "join":
-        return f"{'rjoin' if op[3] else 'join'}({fmt_prog(op[1])}{', ' + fmt(op[2]) if op[2] else ''})"
+        on = f" on {{{','.join(op[4])}}}" if len(op) > 4 else ""
+        return f"{'rjoin' if op[3] else 'join'}({fmt_prog(op[1])}{', ' + fmt(op[2]) if op[2] else ''}{on})"
     if k == "mat":
         return f"mat({op[1]})"
     if k == "xfer":
@@ -326,6 +327,8 @@ def fmt_op(op) -> str:
 def fmt_prog(prog) -> str:
     if prog == ("self",):
         return "self"
+    if prog[0] == "self":
+        return " ; ".join(["self"] + [fmt_op(o) for o in prog[1:]])
     return " ; ".join([prog[0]] + [fmt_op(o) for o in prog[1:]])
 
 
